@@ -18,7 +18,7 @@
 From Coq Require Import List ZArith Permutation Sorted.
 From TskVerif Require Import Base.Common C07.Model C07.ListLemmas C07.CmpLemmas C07.SortProofs
      C07.RaggedProofs C07.TopProofs C07.IdemProofs C07.PartialProofs C07.MutParentsProofs C07.SweepProofs
-     C07.IndexProofs C07.DedupProofs C07.PipelineProofs C07.SquashProofs C07.IndProofs C07.RepairProofs C07.Refuted C07.Examples.
+     C07.IndexProofs C07.DedupProofs C07.PipelineProofs C07.SquashProofs C07.IndProofs C07.RepairProofs C07.RowOrderProofs C07.Refuted C07.Examples.
 Import ListNotations.
 Open Scope Z_scope.
 
@@ -73,6 +73,46 @@ Theorem sort_fixed_point_sorted : forall Q, qsorts_ok Q -> forall t mds gds,
   check_refs t = true -> edges_wf t mds -> migs_wf t gds -> t_index t = None ->
   in_sort_order t -> no_key_ties t -> table_sort Q None t = Ok t.
 Proof. exact sort_fixed_point. Qed.
+
+(* sort() output as a function of the row MULTISET (first half of the open item
+   canonicalise_perm_invariant): two referentially intact collections with the same nodes whose
+   edge rows and migration rows (full rows incl. metadata bytes) and site rows are permutations of
+   each other get IDENTICAL sorted edge / migration tables (fixed columns, metadata and offset
+   columns) and site tables, for every admissible qsort, when the sort keys are distinct on the
+   rows present (edge key, the five migration keys, site position).  Without mutations the whole
+   result is identical.  Not covered: the mutation table (its site / parent ids depend on the
+   row order of the inputs; the renaming argument is not done) and canonicalise's subset step. *)
+Theorem sort_row_multiset_invariant : forall Q t u mds gds nds hds t' u',
+  qsorts_ok Q ->
+  check_refs t = true -> edges_wf t mds -> migs_wf t gds ->
+  check_refs u = true -> edges_wf u nds -> migs_wf u hds ->
+  t_nodes t = t_nodes u ->
+  Permutation (combine (t_edges t) mds) (combine (t_edges u) nds) ->
+  Permutation (combine (t_migs t) gds) (combine (t_migs u) hds) ->
+  Permutation (t_sites t) (t_sites u) ->
+  NoDup (map (edge_key (map n_time (t_nodes t))) (t_edges t)) ->
+  NoDup (map mig_key (t_migs t)) ->
+  NoDup (map s_pos (t_sites t)) ->
+  table_sort Q None t = Ok t' -> table_sort Q None u = Ok u' ->
+  t_edges t' = t_edges u' /\ t_emd t' = t_emd u' /\ t_eoff t' = t_eoff u' /\
+  t_migs t' = t_migs u' /\ t_gmd t' = t_gmd u' /\ t_goff t' = t_goff u' /\
+  t_sites t' = t_sites u'.
+Proof. exact sort_row_multiset. Qed.
+
+Theorem sort_row_multiset_invariant_no_mutations : forall Q t u mds gds nds hds t' u',
+  qsorts_ok Q ->
+  check_refs t = true -> edges_wf t mds -> migs_wf t gds ->
+  check_refs u = true -> edges_wf u nds -> migs_wf u hds ->
+  t_L t = t_L u -> t_nodes t = t_nodes u -> t_inds t = t_inds u -> t_pops t = t_pops u ->
+  t_muts t = [] -> t_muts u = [] ->
+  Permutation (combine (t_edges t) mds) (combine (t_edges u) nds) ->
+  Permutation (combine (t_migs t) gds) (combine (t_migs u) hds) ->
+  Permutation (t_sites t) (t_sites u) ->
+  NoDup (map (edge_key (map n_time (t_nodes t))) (t_edges t)) ->
+  NoDup (map mig_key (t_migs t)) ->
+  NoDup (map s_pos (t_sites t)) ->
+  table_sort Q None t = Ok t' -> table_sort Q None u = Ok u' -> t' = u'.
+Proof. exact sort_row_multiset_no_mutations. Qed.
 
 (* partial sorts.  tsk_table_sorter_sort_edges with start = k (any 0 <= k <= len(edges)), edge
    metadata included: the first k full rows (fixed columns AND metadata bytes) are untouched, the
